@@ -1,6 +1,8 @@
 package main
 
 import (
+	"fmt"
+	"os"
 	"go/token"
 	"go/types"
 	"sort"
@@ -48,10 +50,53 @@ func (p *Program) StartupBytes(g *ssa.Global) []byte {
 
 func (p *Program) computeStartupBytes(g *ssa.Global) []byte {
 	arr, ok := g.Type().(*types.Pointer).Elem().Underlying().(*types.Array)
-	if !ok || arr.Len() <= 0 || arr.Len() > 4096 {
+	if !ok {
 		return nil
 	}
 	if eb, isB := arr.Elem().Underlying().(*types.Basic); !isB || eb.Kind() != types.Uint8 {
+		return nil
+	}
+	vals := p.computeStartupInts(g, true)
+	if vals == nil {
+		return nil
+	}
+	out := make([]byte, len(vals))
+	for i, v := range vals {
+		out[i] = byte(v)
+	}
+	return out
+}
+
+// TableInts: the contents of a package-level array of integers after the one function that writes it element by
+// element has run (an init function, the package initialiser, or the body of a sync.Once) – nil when that cannot be
+// established exactly. Whether the table is complete before it is read, and never written afterwards, is not decided
+// here (C14 H2 / C20 do that).
+func (p *Program) TableInts(g *ssa.Global) []int64 {
+	startupMu.Lock()
+	if p.tables == nil {
+		p.tables = map[*ssa.Global][]int64{}
+	}
+	if v, ok := p.tables[g]; ok {
+		startupMu.Unlock()
+		return v
+	}
+	startupMu.Unlock()
+	v := p.computeStartupInts(g, false)
+	startupMu.Lock()
+	p.tables[g] = v
+	startupMu.Unlock()
+	return v
+}
+
+// computeStartupInts: strict – only init code may write, nothing but whole copies and element reads elsewhere (what
+// makes the array a constant for every other function); otherwise any single writer function is evaluated.
+func (p *Program) computeStartupInts(g *ssa.Global, strict bool) []int64 {
+	arr, ok := g.Type().(*types.Pointer).Elem().Underlying().(*types.Array)
+	if !ok || arr.Len() <= 0 || arr.Len() > 4096 {
+		return nil
+	}
+	eb, isB := arr.Elem().Underlying().(*types.Basic)
+	if !isB || eb.Info()&types.IsInteger == 0 {
 		return nil
 	}
 	loadOnly := func(v ssa.Value) bool {
@@ -69,6 +114,8 @@ func (p *Program) computeStartupBytes(g *ssa.Global) []byte {
 		return true
 	}
 	writers := map[*ssa.Function]bool{}
+	var wholeFrom *ssa.Function // the function whose result the initialiser assigns to g as a whole
+	var literal []int64         // … or the composite literal it assigns
 	for fn := range p.AllFuncs {
 		if fn.Blocks == nil || !p.InModule(fn) {
 			continue
@@ -98,7 +145,7 @@ func (p *Program) computeStartupBytes(g *ssa.Global) []byte {
 						continue
 					}
 					// an element written: init code only
-					if !isInitFunc(fn) {
+					if strict && !isInitFunc(fn) {
 						return nil
 					}
 					for _, r := range *u.Referrers() {
@@ -117,13 +164,76 @@ func (p *Program) computeStartupBytes(g *ssa.Global) []byte {
 						}
 					}
 					writers[fn] = true
+				case *ssa.Return:
+					if strict {
+						return nil
+					}
+				case *ssa.Store:
+					// assigned whole by the package initialiser from a parameterless function (`var t = func() [N]T {…}()`)
+					if u.Addr != ssa.Value(g) || !isInitFunc(fn) || fn.Name() != "init" || wholeFrom != nil || literal != nil {
+						return nil
+					}
+					if ld, isLd := u.Val.(*ssa.UnOp); isLd && ld.Op == token.MUL {
+						// a composite literal: built element by element in a temporary, then copied
+						al, isAl := ld.X.(*ssa.Alloc)
+						if !isAl {
+							return nil
+						}
+						lit := make([]int64, arr.Len())
+						for _, r := range *al.Referrers() {
+							switch x := r.(type) {
+							case *ssa.DebugRef:
+							case *ssa.UnOp:
+								if x != ld {
+									return nil
+								}
+							case *ssa.IndexAddr:
+								k, isC := x.Index.(*ssa.Const)
+								if !isC || x.X != ssa.Value(al) {
+									return nil
+								}
+								for _, r2 := range *x.Referrers() {
+									st, isSt := r2.(*ssa.Store)
+									if !isSt || st.Addr != ssa.Value(x) {
+										return nil
+									}
+									c, isCV := st.Val.(*ssa.Const)
+									if !isCV || c.Value == nil || k.Int64() < 0 || k.Int64() >= arr.Len() {
+										return nil
+									}
+									lit[k.Int64()] = c.Int64()
+								}
+							default:
+								return nil
+							}
+						}
+						literal = lit
+						continue
+					}
+					call, isCall := u.Val.(*ssa.Call)
+					if !isCall || len(call.Call.Args) != 0 || call.Call.StaticCallee() == nil {
+						return nil
+					}
+					wholeFrom = call.Call.StaticCallee()
 				default:
-					return nil // assigned whole, sliced, its address handed on: not followed here
+					return nil // sliced, its address handed on: not followed here
 				}
 			}
 		}
 	}
-	out := make([]byte, arr.Len())
+	out := make([]int64, arr.Len())
+	if literal != nil {
+		if len(writers) != 0 {
+			return nil
+		}
+		return literal
+	}
+	if wholeFrom != nil {
+		if len(writers) != 0 {
+			return nil
+		}
+		return p.evalArrayResult(wholeFrom, arr.Len())
+	}
 	if len(writers) == 0 {
 		return out
 	}
@@ -143,7 +253,7 @@ func (p *Program) computeStartupBytes(g *ssa.Global) []byte {
 					continue
 				}
 				k, isC := ia.Index.(*ssa.Const)
-				if !isC || len(w.Blocks) != 1 {
+				if !isC {
 					return nil
 				}
 				for _, r := range *ia.Referrers() {
@@ -152,7 +262,7 @@ func (p *Program) computeStartupBytes(g *ssa.Global) []byte {
 						if !isCV || c.Value == nil {
 							return nil
 						}
-						out[k.Int64()] = byte(c.Uint64())
+						out[k.Int64()] = c.Int64()
 					}
 				}
 			}
@@ -169,7 +279,7 @@ func (p *Program) computeStartupBytes(g *ssa.Global) []byte {
 	type st struct {
 		pos int
 		k   int64
-		v   byte
+		v   int64
 	}
 	bad := false
 	var stores []st
@@ -190,11 +300,11 @@ func (p *Program) computeStartupBytes(g *ssa.Global) []byte {
 		}
 		k, okK := d.Args[1].Int64()
 		v, okV := stripCT(ev.Src).Int64()
-		if !okK || !okV || k < 0 || k >= arr.Len() || v < 0 || v > 255 {
+		if !okK || !okV || k < 0 || k >= arr.Len() {
 			bad = true
 			return
 		}
-		stores = append(stores, st{n, k, byte(v)})
+		stores = append(stores, st{n, k, v})
 	})
 	if bad {
 		return nil
@@ -202,6 +312,95 @@ func (p *Program) computeStartupBytes(g *ssa.Global) []byte {
 	sort.SliceStable(stores, func(i, j int) bool { return stores[i].pos < stores[j].pos })
 	for _, s := range stores {
 		out[s.k] = s.v
+	}
+	return out
+}
+
+// evalArrayResult: the array a parameterless function returns, when it is a local array the function fills element
+// by element with constants (after unrolling) and returns whole.
+func (p *Program) evalArrayResult(fn *ssa.Function, n int64) []int64 {
+	if fn.Blocks == nil || len(fn.Params) != 0 || len(fn.FreeVars) != 0 {
+		return nil
+	}
+	// the returned value must be the load of one local array on every return
+	var res *ssa.Alloc
+	for _, b := range fn.Blocks {
+		ret, ok := b.Instrs[len(b.Instrs)-1].(*ssa.Return)
+		if !ok {
+			continue
+		}
+		if len(ret.Results) != 1 {
+			return nil
+		}
+		ld, ok := ret.Results[0].(*ssa.UnOp)
+		if !ok || ld.Op != token.MUL {
+			return nil
+		}
+		al, ok := ld.X.(*ssa.Alloc)
+		if !ok || (res != nil && res != al) {
+			return nil
+		}
+		res = al
+	}
+	if res == nil {
+		return nil
+	}
+	e := NewEngine(p)
+	e.UnrollMax = 4096
+	e.MaxPaths = 64
+	paths, err := e.AnalyzeRoot(fn, nil)
+	if os.Getenv("FPDEBUG") == "crc" {
+		fmt.Fprintln(os.Stderr, "evalArrayResult", fn, "paths", len(paths), "err", err)
+		for _, pp := range paths {
+			fmt.Fprintln(os.Stderr, "  trunc", pp.Trunc, "panic", pp.Panic, "mem", len(pp.Mem), "conds", len(pp.Conds), "events", len(pp.Events))
+			for i, ev := range pp.Events {
+				if i < 6 {
+					fmt.Fprintln(os.Stderr, "    ", ev.String())
+				}
+			}
+			for k, me := range pp.Mem {
+				fmt.Fprintln(os.Stderr, "    mem", k, "=", me.V.Pretty())
+			}
+		}
+	}
+	if err != nil || len(paths) != 1 || paths[0].Trunc != "" || paths[0].Panic {
+		return nil
+	}
+	out := make([]int64, n)
+	whole := map[int64]int64{}
+	defer func() {
+		for k, v := range whole {
+			out[k] = v
+		}
+	}()
+	for _, me := range paths[0].Mem {
+		a := me.Addr
+		if a == nil || a.Op != "index" || len(a.Args) != 2 || a.Args[0].Op != "alloc" || a.Args[0].Aux != any(res) {
+			if a != nil && a.Op == "alloc" && a.Aux == any(res) {
+				// assigned whole (`return t` with a named result stores the result back): the aggregate of its elements
+				v := stripCT(me.V)
+				if v == nil || v.Op != "array" || int64(len(v.Args)) != n {
+					if v != nil && v.Op == "zero" {
+						continue
+					}
+					return nil
+				}
+				for k, x := range v.Args {
+					c, okV := stripCT(x).Int64()
+					if !okV {
+						return nil
+					}
+					whole[int64(k)] = c
+				}
+			}
+			continue
+		}
+		k, okK := a.Args[1].Int64()
+		v, okV := stripCT(me.V).Int64()
+		if !okK || !okV || k < 0 || k >= n {
+			return nil
+		}
+		out[k] = v
 	}
 	return out
 }
